@@ -705,35 +705,13 @@ func predSlot(from *ssa.BasicBlock, slot int, to *ssa.BasicBlock) int {
 // holds on the edge.
 func edgesEstablishing(fn *ssa.Function, match func(cond string, pol bool) bool) map[edge]bool {
 	out := map[edge]bool{}
-	for _, b := range fn.Blocks {
-		if len(b.Instrs) == 0 {
-			continue
-		}
-		iff, ok := b.Instrs[len(b.Instrs)-1].(*ssa.If)
-		if !ok {
-			continue
-		}
-		c, pol := normCond(iff.Cond)
-		if match(c, pol) { // true edge
-			out[edge{b.Index, 0, 0}] = true
-		}
-		if match(c, !pol) { // false edge
-			out[edge{b.Index, 1, 0}] = true
-		}
-		if ph, neg, ok := condPhi(b); ok {
-			for i, e := range ph.Edges {
-				if _, isConst := e.(*ssa.Const); isConst {
-					continue
-				}
-				c, pol := normCond(e)
-				if neg {
-					pol = !pol
-				}
-				if match(c, pol) {
-					out[edge{b.Index, 0, i + 1}] = true
-				}
-				if match(c, !pol) {
-					out[edge{b.Index, 1, i + 1}] = true
+	for _, bc := range branchConds(fn) {
+		for slot := 0; slot < 2; slot++ {
+			val := (slot == 0) != bc.neg // truth value of bc.cond on this edge
+			for _, a := range impliedAtoms(fn, bc.cond, val, 0) {
+				if match(a.Cond, a.Pol) {
+					out[bc.edge(slot)] = true
+					break
 				}
 			}
 		}
@@ -905,6 +883,27 @@ func guardedM(fn *ssa.Function, in ssa.Instruction, match func(cond string, pol 
 	}
 	r, _ := reach(fn, nil, isInstr(in), nil, be)
 	return !r
+}
+
+// phiEdgeGuarded: the i-th incoming edge of ph is taken only when one of the atoms holds.
+func phiEdgeGuarded(f *ssa.Function, ph *ssa.Phi, i int, atoms ...Atom) bool {
+	b := ph.Block()
+	blocked := edgesEstablishing(f, atomMatcher(atoms...))
+	if len(blocked) == 0 || len(b.Instrs) == 0 {
+		return false
+	}
+	for j, p := range b.Preds {
+		if j == i {
+			continue
+		}
+		for slot, s := range p.Succs {
+			if s == b && predSlot(p, slot, b) == j+1 {
+				blocked[edge{p.Index, slot, 0}] = true
+			}
+		}
+	}
+	hit, _ := reach(f, nil, isInstr(b.Instrs[0]), nil, blocked)
+	return !hit
 }
 
 // condsOf lists the canonical conditions of all branches in fn (debug/evidence).
